@@ -158,6 +158,25 @@ def check_call(x, x0, n, container, W, S):
             w1 = None
             probs.append(('fd_weights:raised-%s:x0-%s' % (type(e).__name__, xc),
                           'fd_weights raised %s: %s' % (type(e).__name__, e)))
+    # the same request with numpy scalars for x0 and n (what `for n in np.arange(m)` or `n = orders[k]` hand over)
+    with warnings.catch_warnings(), np.errstate(all='ignore'):
+        warnings.simplefilter('ignore')
+        for name, fn, nn, ref in (('fd_weights_all', fd_weights_all, np.int32(n), w),
+                                  ('fd_weights', fd_weights, np.int64(n), w1)):
+            if ref is None:
+                continue
+            try:
+                calls += 1
+                got = np.asarray(fn(as_container(x, container), np.float64(x0), nn))
+            except Exception as e:
+                probs.append(('%s:numpy-scalar-arguments:raised-%s' % (name, type(e).__name__),
+                              '%s(x, np.float64(x0), %s(%d)) raised %s: %s' % (name, type(nn).__name__, n,
+                                                                               type(e).__name__, e)))
+                continue
+            if got.shape != np.shape(ref) or got.tobytes() != np.ascontiguousarray(ref).tobytes():
+                probs.append(('%s:numpy-scalar-arguments:differs' % name,
+                              '%s with numpy scalars for x0 and n returned %r, with Python numbers %r'
+                              % (name, got.tolist(), np.asarray(ref).tolist())))
     w = np.asarray(w)
     if w.shape != (n + 1, m) or w.dtype.kind != 'f':
         probs.append(('fd_weights_all:shape', 'returned shape %r dtype %s, documented (n+1, len(x)) = %r floats'
